@@ -437,11 +437,6 @@ KD_SIGNATURE = {
     "borrow-per-connection": ("C08", "pubsub:max-borrowed-per-connection-not-per-subscriber",
                               "a receive succeeds although the subscriber already holds subscriber_max_borrowed_samples "
                               "samples (the limit is enforced per publisher connection, not per subscriber)"),
-    "stale-connection-key": ("C01", "pubsub:healthy-connection-dropped:stale-connection-key-after-failed-attach",
-                             "a connection fault with one publisher disturbs another pair: after a publisher the subscriber was "
-                             "attached to left and the subscriber's attach to its successor failed, the subscriber's connection "
-                             "table keeps a stale slot-map key; later updates drop the connection to a HEALTHY publisher (samples "
-                             "counted as delivered are never received)"),
     "expired-buffer-panic": ("C08", "pubsub:expired-connection-buffer-panic-after-over-borrow",
                              "the process aborts (fatal_panic 'Expired connection buffer exceeded ... still borrowed') in a "
                              "connection update of a subscriber that holds samples of more vanished publishers than its "
@@ -1145,8 +1140,9 @@ def over_borrow_panic_jobs(variants):
 
 
 def stale_key_jobs(variants):
-    """The shortest history found for the known finding pubsub:healthy-connection-dropped:stale-connection-key-after-failed-attach
-    (executed in every run so that the finding is re-observed deterministically)."""
+    """Regression program of the repaired finding pubsub:healthy-connection-dropped:stale-connection-key-after-failed-attach
+    (known_findings.json, status fixed): the subscriber's attach to the publisher that took over a registry slot fails
+    while the slot still refers to its previous connection; later a healthy publisher's connection was dropped."""
     q = qos(maxpubs=3, maxsubs=1, bufmax=2, hist=0, borrow=2, loan=1, overflow=False)
     u = [{"a": "update_sub", "s": 1}]
     prog = [{"a": "create_sub", "s": 1, "buf": 2, "req": 0}, {"a": "create_pub", "p": 1}, {"a": "create_pub", "p": 2}] + u
